@@ -572,6 +572,11 @@ def shift_scene(scene, rng, shift=None):
             scene["grid_style"] = "random32"
     if scene.get("then", {}).get("edit") == "assign":
         scene["then"]["coords"] = [[sh(a) for a in c] for c in scene["then"]["coords"]]
+    elif "then" in scene:
+        # a later translate / scale of a far-away scene gives coordinates that are NOT binary32 values: converting them for
+        # the binary32 kernels moves atoms by up to ulp(1e4)/2 ≈ 5e-4 Å, far outside the rounding band — not a question the
+        # property asks; far-away scenes are evaluated as they are
+        scene.pop("then")
     scene["shift"] = shift
     return scene
 
@@ -815,15 +820,19 @@ def check_scenes(ctx, n_cases, corpus, big=0):
             occ = np.zeros((n_conf, grid.shape[0]))
             chg = np.zeros((n_conf, grid.shape[0]))
             amb = np.zeros(grid.shape[0], dtype=bool)
+            # inputs that are not binary32 values are rounded on their way into the binary32 kernels: each coordinate by at
+            # most |x|·2^-24, a distance by at most 2·sqrt(3) times that, d² by 2·d times that — added to the band
+            mag = max(float(np.abs(coords).max()), float(np.abs(grid).max()), 1.0)
+            dd = 2.0 * 3 ** 0.5 * mag * 2.0 ** -23
             for ci in range(n_conf):
                 d2 = brute_d2(coords[ci], grid)
                 inside = d2 <= r2[:, None]
-                amb |= np.any(np.abs(d2 - r2[:, None]) <= 2e-5 * r2[:, None], axis=0)
+                amb |= np.any(np.abs(d2 - r2[:, None]) <= 2e-5 * r2[:, None] + 2.0 * np.sqrt(r2[:, None]) * dd + dd * dd, axis=0)
                 occ[ci] = inside.any(0)
                 srt = np.sort(d2, axis=0)
                 if n_atoms > 1:
-                    amb |= (srt[1] - srt[0]) <= 2e-5 * (srt[1] + srt[0])
-                amb |= np.abs(srt[0] - r2.max()) <= 2e-5 * r2.max()
+                    amb |= (srt[1] - srt[0]) <= 2e-5 * (srt[1] + srt[0]) + 4.0 * np.sqrt(srt[1]) * dd
+                amb |= np.abs(srt[0] - r2.max()) <= 2e-5 * r2.max() + 2.0 * np.sqrt(r2.max()) * dd
                 near = d2.argmin(0)
                 chg[ci] = np.where(inside.any(0), np.array(s["charges"][ci])[near], 0.0)
             ref_aso = (w[:, None] * occ).sum(0) / w.sum()
